@@ -235,7 +235,7 @@ def gen_grid(rng):
     g0, g1, n = 0, hi, (hi // step if step else 2 * hi)
     step = step or 1
     lines = ['window %d %d' % (LO, HI)]
-    nd = rng.randrange(2, 4); objs = {}; sizes = {}
+    nd = rng.randrange(2, 4); objs = {}; sizes = {}; tainted = set()
     for i in range(nd):
         d = grid_ok(rand_diag(rng, 0, hi, step), g0, g1, n); lines.append('gdiag %d %d %d %d %s' % (i, g0, g1, n, dline(d)))
         objs[i] = Obj.grid([(Fr(b), Fr(e)) for b, e in d], g0, g1, n); sizes[i] = len(d)
@@ -247,25 +247,29 @@ def gen_grid(rng):
             if len(d2) >= 3:
                 nl_ = rng.randrange(2, min(len(d2), 4)); j_ = rng.randrange(3, 6)
                 full_ = Obj.grid([(Fr(b), Fr(e)) for b, e in d2], g0, g1, n)
-                lines.append('gdiagl %d %d %d %d %d %s' % (j_, g0, g1, n, nl_, dline(d2))); objs[j_] = Obj(full_.lv[:nl_]); sizes[j_] = nl_
+                lines.append('gdiagl %d %d %d %d %d %s' % (j_, g0, g1, n, nl_, dline(d2))); objs[j_] = Obj(full_.lv[:nl_]); sizes[j_] = nl_; tainted.discard(j_)
                 lines.append('geval %d %d' % (j_, nl_))
     for _ in range(rng.randrange(2, 8)):
         x = rng.random(); ok = list(objs)
         if x < 0.3:
             a, b = rng.choice(ok), rng.choice(ok); c = rng.randrange(6); o = rng.choice(['gadd', 'gsub'])
             lines.append('%s %d %d %d' % (o, c, a, b)); objs[c] = objs[a].op(objs[b], (lambda p, q: p + q) if o == 'gadd' else (lambda p, q: p - q)); sizes[c] = max(sizes[a], sizes[b])
+            (tainted.add if (a in tainted or b in tainted) else tainted.discard)(c)
             lines.append('geval %d %d' % (c, sizes[c] + 1))
         elif x < 0.45:
             a = rng.choice(ok); c = rng.randrange(6); k = rng.choice(SC)
             lines.append('gscale %d %d %d %d' % (c, a, k, rng.randrange(2))); objs[c] = objs[a].map(lambda p: k * p); sizes[c] = sizes[a]
+            (tainted.add if a in tainted else tainted.discard)(c)
             lines.append('geval %d %d' % (c, sizes[c]))
         elif x < 0.53:
-            n_ = rng.choice([2, 4, 3, 5, 6]); srcs = [rng.choice(ok) for _ in range(n_)]; c = rng.randrange(6)
+            clean_ = [o_ for o_ in ok if o_ not in tainted]        # an average (or anything computed from one) is not averaged again: keeps the samples on the 1/64 lattice
+            if not clean_: continue
+            n_ = rng.choice([2, 4, 3, 5, 6]); srcs = [rng.choice(clean_) for _ in range(n_)]; c = rng.randrange(6)
             if n_ in (3, 5): srcs = [srcs[0]] * n_
             elif n_ == 6: srcs = [srcs[0], srcs[1]] * 3; rng.shuffle(srcs)
             acc = objs[srcs[0]]
             for s_ in srcs[1:]: acc = acc.op(objs[s_], lambda p, q: p + q)
-            lines.append('gavg %d %s' % (c, ' '.join(map(str, srcs)))); objs[c] = acc.map(lambda p: p / n_); sizes[c] = max(sizes[s_] for s_ in srcs)
+            lines.append('gavg %d %s' % (c, ' '.join(map(str, srcs)))); objs[c] = acc.map(lambda p: p / n_); sizes[c] = max(sizes[s_] for s_ in srcs); tainted.add(c)
             lines.append('geval %d %d' % (c, sizes[c] + 1))
         elif x < 0.6: lines.append('gint %d' % rng.choice(ok))
         elif x < 0.85:
